@@ -1,6 +1,6 @@
 """C04 — tricks are won, led and counted according to the laws of play."""
 import play_common as pc
-from play_common import impl_exec, classify, nontrivial  # noqa: F401
+from play_common import impl_exec, impl_exec_multi, classify, nontrivial  # noqa: F401
 from common import Case
 
 TITLE = 'Tricks are won, led and counted according to the laws of play'
